@@ -11,6 +11,11 @@
 //	     outputs; DPoSV2ActiveHeight = <active>, consensus mode POW iff <pow>=1, mainnet
 //	     schedule; <reward> must equal GetBlockReward(h) (re-checked here).
 //	     a_i in {cr, des, stk, o<k>}    -> ok | err <kind> | panic | legacy
+//	blk <h> <active> <pow> <checkRewardHeight> <reward> <n> v1 a1 .. vn an
+//	     the real BlockChain.checkTxsContext (hook) on a block of height h that contains only
+//	     this coinbase: fee aggregation, GetBlockDPOSReward, the coinbase check AND what
+//	     checkTxsContext does with its error (ChainParams.CheckRewardHeight set per op)
+//	     -> ok | err | panic
 //	asg <h> <active> <pow> <fees> <reward>
 //	     the real pow.Service.AssignCoinbaseTxRewards on the two-output coinbase of
 //	     CreateCoinbaseTx, then the real check on the result (dposReward as
@@ -228,6 +233,34 @@ func execCb(t []string) string {
 	return cbClass(chain.VerifCheckCoinbaseTransactionContext(h, coinbase(h, outs), fees, dposReward))
 }
 
+func execBlk(t []string) string {
+	setup()
+	h, active := atou32(t[1]), atou32(t[2])
+	crh := atou32(t[4])
+	reward := f64(t[5])
+	if params.GetBlockReward(h) != reward {
+		return "reward-mismatch"
+	}
+	if !isV2(active, h) {
+		panic("harness: blk ops are for DPoS-v2 heights")
+	}
+	n, _ := strconv.Atoi(t[6])
+	outs := make([]*common2.Output, n)
+	for i := 0; i < n; i++ {
+		outs[i] = &common2.Output{AssetID: core.ELAAssetID, Value: f64(t[7+2*i]), ProgramHash: addrOf(t[8+2*i]),
+			Payload: &outputpayload.DefaultOutput{}}
+	}
+	setMode(active, t[3])
+	old := params.CheckRewardHeight
+	params.CheckRewardHeight = crh // the chain object holds this very Configuration
+	defer func() { params.CheckRewardHeight = old }()
+	blk := &types.Block{Header: common2.Header{Height: h}, Transactions: []interfaces.Transaction{coinbase(h, outs)}}
+	if err := chain.VerifCheckTxsContext(blk); err != nil {
+		return "err"
+	}
+	return "ok"
+}
+
 func safe(f func() error) (err error) {
 	defer func() {
 		if e := recover(); e != nil {
@@ -276,6 +309,8 @@ func exec(t []string) string {
 		return execCb(t)
 	case "asg":
 		return execAsg(t)
+	case "blk":
+		return execBlk(t)
 	}
 	panic("harness: unknown op " + t[0])
 }
@@ -348,7 +383,24 @@ func gen(g *hx.Gen) {
 				p[2] = uint32(1 + r.Intn(2))
 			}
 		}
+		if r.Chance(15) { // arbitrary large (HalvingRewardHeight, HalvingRewardInterval) pairs, either order
+			p[0] = uint32(r.Intn(2000000))
+			p[1] = uint32(r.Intn(3000000))
+			p[2] = uint32(2 + r.Intn(3000000))
+		}
 		g.Emit("rew %d %d %d %d %d", p[0], p[1], p[2], p[3], genHeight(r, p[0], p[1], p[2]))
+	}
+	// every built-in network: windows around its own thresholds and halving steps
+	for _, p := range nets {
+		for k := uint32(0); k < 8; k++ {
+			for d := int64(-2); d <= 2; d++ {
+				for _, base := range []int64{int64(p[0]), int64(p[1]) + int64(k)*int64(p[2]), int64(p[2])} {
+					if hh := base + d; hh >= 0 && hh <= math.MaxUint32 {
+						g.Emit("rew %d %d %d %d %d", p[0], p[1], p[2], p[3], hh)
+					}
+				}
+			}
+		}
 	}
 	// every halving step of the mainnet schedule, windows of +-2
 	for k := uint32(0); k < 45; k++ {
@@ -415,6 +467,41 @@ func gen(g *hx.Gen) {
 		}
 		g.Emit("cb %d %d %d %d %d %d %s", h, active, powMode, fees, int64(reward), dposReward, b.String())
 	}
+	// block level: the same coinbase vectors through checkTxsContext, with CheckRewardHeight
+	// below / at / above the block height
+	nb := g.N(2500, 120000)
+	for i := 0; i < nb; i++ {
+		active := uint32(1000000 + r.Intn(400000))
+		h := active + 2 + uint32(r.Intn(3000000))
+		powMode := r.Intn(2)
+		reward := params.GetBlockReward(h)
+		cr, miner, dp := shares(reward)
+		a0, a2 := "cr", "stk"
+		if powMode == 1 {
+			a0, a2 = "des", "des"
+		}
+		vals := []int64{int64(cr), int64(miner), int64(dp)}
+		as := []string{a0, "min", a2}
+		switch r.Intn(8) {
+		case 0, 1:
+			vals[r.Intn(3)] += int64(1 + r.Intn(500)) // pays too much
+		case 2:
+			vals[r.Intn(3)] -= 1
+		case 3:
+			as[r.Intn(3)] = addrs[r.Intn(len(addrs))]
+		case 4:
+			vals, as = append(vals, int64(r.Intn(1000))), append(as, "o3")
+		case 5:
+			vals, as = vals[:2], as[:2]
+		}
+		crh := []uint32{0, 436812, h - 1, h, h, h + 1, math.MaxUint32}[r.Intn(7)]
+		var b strings.Builder
+		fmt.Fprintf(&b, "%d", len(vals))
+		for k := range vals {
+			fmt.Fprintf(&b, " %d %s", vals[k], as[k])
+		}
+		g.Emit("blk %d %d %d %d %d %s", h, active, powMode, crh, int64(reward), b.String())
+	}
 	na := g.N(3000, 150000)
 	for i := 0; i < na; i++ {
 		active := uint32(1000000 + r.Intn(400000))
@@ -451,6 +538,43 @@ func oracle(t []string, out string) *hx.Violation {
 			if next := int64(cfg.GetBlockReward(h + 1)); next > v {
 				return &hx.Violation{Kind: "subsidy-increases", Detail: fmt.Sprintf("reward(%d)=%d < reward(%d)=%d", h, v, h+1, next)}
 			}
+		}
+		// the schedule itself: factor 1 up to HalvingRewardHeight, then one more halving per interval
+		if h >= newH && interval >= 2 {
+			c0 := &config.Configuration{NewELAIssuanceHeight: 0, HalvingRewardHeight: math.MaxUint32, HalvingRewardInterval: interval}
+			base := int64(c0.GetBlockReward(0)) // the reward before any halving
+			halvH := atou32(t[2])
+			want := base
+			if h >= halvH {
+				k := uint64(1) + uint64(h-halvH)/uint64(interval)
+				if k >= 63 {
+					want = 0
+				} else {
+					want = base >> k
+				}
+			}
+			if v != want {
+				return &hx.Violation{Kind: "off-schedule", Detail: fmt.Sprintf("reward(%d)=%d, the schedule says %d", h, v, want)}
+			}
+		}
+	case "blk":
+		if out != "ok" {
+			return nil
+		}
+		h, crh := atou32(t[1]), atou32(t[4])
+		if h < crh {
+			return nil // below CheckRewardHeight the node deliberately does not enforce the amounts
+		}
+		reward := f64(t[5])
+		n, _ := strconv.Atoi(t[6])
+		cr, miner, dp := shares(reward)
+		want0, want2 := "cr", "stk"
+		if t[3] == "1" {
+			want0, want2 = "des", "des"
+		}
+		if n != 3 || f64(t[7]) != cr || f64(t[9]) != miner || f64(t[11]) != dp || t[8] != want0 || t[12] != want2 {
+			return &hx.Violation{Kind: "block-accepted-bad-coinbase",
+				Detail: "checkTxsContext accepted a DPoS-v2 block whose coinbase is not the fixed split of subsidy+fees at the fixed addresses"}
 		}
 	case "cb":
 		if out != "ok" {
